@@ -270,10 +270,41 @@ def AL_OR(rng):
     return 0xE if rng.random() < 0.7 else rng.randrange(16)
 
 
+_CENSUS = None
+
+
+def census():
+    """sim/classwords.json: a few instruction words for every concrete opcode class of the repository (built once from the clean tree by
+    selftest/classwords_build.py).  Workload only: it makes every class - including single-word encodings such as ISB.W, RRX.W, PUSH.W {rt} - a
+    routine visitor of every stream, in every mode and regime, instead of a lucky draw; nothing in an oracle reads it."""
+    global _CENSUS
+    if _CENSUS is None:
+        import json, os
+        with open(os.path.join(os.path.dirname(os.path.abspath(__file__)), 'classwords.json')) as f:
+            t = json.load(f)
+        by = {'A': [], 'T': []}
+        for name in sorted(t):
+            by['A' if t[name]['isa'] == 'A' else 'T'].append((t[name]['isa'], t[name]['words']))
+        _CENSUS = by
+    return _CENSUS
+
+
+def census_word(rng, thumb):
+    isa, words = rng.choice(census()['T' if thumb else 'A'])
+    w = rng.choice(words)
+    if rng.random() < 0.4:
+        w ^= 1 << rng.randrange(16 if isa == 'T16' else 32)      # a neighbour: other operands, or the UNPREDICTABLE/UNDEFINED word next door
+    if isa == 'T16':
+        w = (w & 0xFFFF) << 16 | rng.choice([0xBF00, rng.getrandbits(16)])
+    return w
+
+
 def stream_word(rng, thumb_bias=0.5):
     """a 32-bit stream entry: used as the ARM word in ARM state and as hw1:hw2 in Thumb state"""
     k = rng.random()
     th = rng.random() < thumb_bias
+    if k > 0.86:
+        return census_word(rng, th)
     if k < 0.30:
         w = rng.getrandbits(32)
         if th and rng.random() < 0.5:
